@@ -1,3 +1,4 @@
+\* X02 contract, value family: every tree of WithValue nodes over 2 keys x 2 values
 SPECIFICATION Spec
 CONSTANTS
   MaxNodes = 4
